@@ -121,21 +121,17 @@ func outDir() string {
 
 func loadFindings() map[string]finding {
 	res := map[string]finding{}
-	files, _ := filepath.Glob(filepath.Join(VerifDir(), "findings.d", "*.json"))
-	files = append(files, filepath.Join(VerifDir(), "known_findings.json"))
-	for _, p := range files {
-		b, err := os.ReadFile(p)
-		if err != nil {
-			continue
-		}
-		var ff findingsFile
-		if json.Unmarshal(b, &ff) != nil {
-			continue
-		}
-		for _, f := range ff.Findings {
-			if f.Status == "open" {
-				res[f.ID] = f
-			}
+	b, err := os.ReadFile(filepath.Join(VerifDir(), "known_findings.json"))
+	if err != nil {
+		return res
+	}
+	var ff findingsFile
+	if json.Unmarshal(b, &ff) != nil {
+		return res
+	}
+	for _, f := range ff.Findings {
+		if f.Status == "open" {
+			res[f.ID] = f
 		}
 	}
 	return res
